@@ -70,6 +70,29 @@ def playback_values(txt):
         out.append([r.strip() for r in rows])
     return out
 
+def native_samples(name, count=24):
+    import random
+    rnd = random.Random(int(os.environ.get("VERIF_SEED", "0") or 0) * 7919 + hash(name) % 1000)
+    kre = os.path.join(RTARGET, "release", "kreplay")
+    held = 0
+    os.makedirs(WORK, exist_ok=True)
+    for k in range(count):
+        pool = [10, 13, 32, 97, 98, 0x0b, 0xc2, 0xa0, 0xff, 0, 1, 2, 3, 5, 255] + [rnd.randrange(256) for _ in range(6)]
+        small = [0, 1, 2, 3, 4]
+        rows = ["%d,0,0,0,0,0,0,0" % (rnd.choice(small) if (k % 2 == 0 or rnd.random() < 0.4) else rnd.choice(pool)) for _ in range(64)]
+        f = os.path.join(WORK, "sample-%s-%d.vals" % (name.replace("::", "_"), k))
+        open(f, "w").write("\n".join(rows) + "\n")
+        rr = subprocess.run([kre, name, f], stdout=subprocess.PIPE, stderr=subprocess.STDOUT, text=True)
+        if rr.returncode == 0:
+            held += 1
+            os.remove(f)
+        elif rr.returncode == 1:
+            return held, f
+        else:
+            os.remove(f)
+    return held, None
+
+
 def run_one(name, timeout_s, needs_stubs, replay_dir):
     log = os.path.join(WORK, "kani_%s.log" % name.replace("::", "_"))
     t0 = time.time()
@@ -93,6 +116,11 @@ def run_one(name, timeout_s, needs_stubs, replay_dir):
             d.update(status="inconclusive", reason="a cover (reachability witness) is unsatisfied: harness may be vacuous")
         else:
             d["status"] = "pass"
+            # sanity of the harness oracle against the real code: the same harness body is run
+            # natively on pseudo-random small inputs (seeded by VERIF_SEED); none may fail
+            d["native_samples_held"], bad = native_samples(name)
+            if bad:
+                d.update(status="inconclusive", reason="harness passes under Kani but fails natively on sample input %s" % bad)
         return d
     if d["verdict"] is None or d["oom"] or not d["failed_checks"]:
         d.update(status="inconclusive", reason="CBMC did not finish (out of memory / crash); log %s" % log)
